@@ -28,8 +28,8 @@ func init() {
 
 // Exports for the other harness packages (refs, sql).
 
-func NewScratch(tag string) string { return newScratch(tag) }
-func FirstLine(err error) string   { return firstLine(err) }
+func NewScratch(tag string) string  { return newScratch(tag) }
+func FirstLine(err error) string    { return firstLine(err) }
 func FileClass(p, p2 string) string { return fileClass(p, p2) }
 
 // NewYieldingStore wraps cs so that the calling task parks before Root / Rebase / Put / Commit.
